@@ -1,7 +1,7 @@
 CHECKS = [
     entry("C05", "collector",
           technique="property-based testing (rapid): generated schedules on the real collector under virtual time; reference rate/marker model over forwarded spans",
-          quick=dict(checks=400, budget_s=50),
+          quick=dict(checks=700, budget_s=70),
           thorough=dict(checks=8000, shards=16, budget_s=540),
           level_text="Generated schedules with DryRun on from the start or switched by reloads (it is a reloadable option); each span is judged by the setting in force when it was forwarded: every accepted span must be forwarded once with the client's rate and a consistent would-be decision marker that matches the recorded and (where predictable) the sampler's decision. Exploration.",
           level_note="Virtual time via testing/synctest; recording transmission double; MockConfig settings."),
